@@ -175,7 +175,7 @@ struct report {
     std::map<std::string, std::string> extra; // key -> JSON value
     struct viol { std::string key, what, witness; uint64_t count; };
     std::vector<viol> viols;
-    size_t max_sigs = 50000;
+    size_t max_sigs = 400000;
     bool sig_overflow = false;
     std::string out_path;
     bool pinned = false;
